@@ -303,7 +303,13 @@ func childMain(env *vh.Env) {
 				pend = append(pend, &rr)
 				pmu.Unlock()
 			}
-			if os.Getenv("C06_DEBUG") != "" {
+			if p := os.Getenv("C06_DEBUG"); strings.HasPrefix(p, "/") {
+				// C06_DEBUG=/path: one line per scenario appended to that file
+				if f, err := os.OpenFile(p, os.O_CREATE|os.O_WRONLY|os.O_APPEND, 0o644); err == nil {
+					fmt.Fprintf(f, "%-60s faults=%d/%d conns=%d sends=%d recv=%d wall=%dms\n", j.Spec.Name, r.Faults, len(j.Spec.Script), len(r.Conns), r.Sends, r.Received, r.WallMs)
+					f.Close()
+				}
+			} else if p != "" {
 				fmt.Fprintf(os.Stderr, "%-40s cap=%d faults=%d/%d conns=%d sends=%d recv=%d wall=%dms\n", j.Spec.Name, j.Spec.QueueCap, r.Faults, len(j.Spec.Script), len(r.Conns), r.Sends, r.Received, r.WallMs)
 			}
 			emit(r)
@@ -474,6 +480,9 @@ func runChildMem(env *vh.Env, jobs []job, par int, mem int64, timeout time.Durat
 	cmd.Stdout = &errb
 	runErr := cmd.Run()
 	cr.stderr = errb.String()
+	if os.Getenv("C06_DEBUG") != "" {
+		fmt.Fprintln(os.Stderr, cr.stderr)
+	}
 	if ctx.Err() == context.DeadlineExceeded {
 		cr.timedOut = true
 		cr.exitErr = fmt.Sprintf("child process did not finish within %v", timeout)
